@@ -402,11 +402,13 @@ func c08UnknownBody(c *Ctx) {
 		}
 		decodesChild := false
 		var pos token.Pos
-		for _, b := range fn.Blocks {
-			for _, ins := range b.Instrs {
-				if call, ok := ins.(*ssa.Call); ok && call.Call.StaticCallee() == dec && strings.HasSuffix(pathName(call.Call.Args[0]), ".Body") {
-					decodesChild = true
-					pos = call.Pos()
+		for _, xf := range c.P.expandedFuncs(fn) {
+			for _, b := range xf.Blocks {
+				for _, ins := range b.Instrs {
+					if call, ok := ins.(*ssa.Call); ok && call.Call.StaticCallee() == dec && strings.HasSuffix(pathName(call.Call.Args[0]), ".Body") {
+						decodesChild = true
+						pos = call.Pos()
+					}
 				}
 			}
 		}
@@ -441,7 +443,11 @@ func c08UnknownBody(c *Ctx) {
 			}
 			return false
 		}
-		tests = hasTest(fn, 0)
+		for _, xf := range c.P.expandedFuncs(fn) {
+			if hasTest(xf, 0) {
+				tests = true
+			}
+		}
 		c.Check(tests, "unknownbody", FuncName(fn)+":child[UnknownBody]", pos, "unknown child bodies yield an unknown value",
 			"the spec decodes child block bodies but has no UnknownBody test: with an unknown for_each it returns a known value although zero or many blocks are possible")
 		// once a child body has been found unknown, no error is recorded on the way to the return
